@@ -1,8 +1,63 @@
 /-
-  C07 — (theorems being added)
+  C07 — grammar binarization: rank, labels, reordering, chain composition
 -/
 import TT.Spec.Grammar
+import TT.Lemmas.GramBin
 namespace TT.Props.C07
-open TT TT.Tree TT.Spec
+open TT TT.Tree TT.Spec TT.Lemmas.GramBin
+
+/-- T1: binarize_rule only writes rules with at most two RHS elements (given the result so far has that property) -/
+theorem binarizeRule_rank (mo : Option MarkovOpts) (func : Func) (lin : Lin) (cnt : Nat) (vert : List Str)
+    (st : GenState) (res : Grammar) (h : ∀ e ∈ res, e.1.length ≤ 3) :
+    ∀ e ∈ (binarizeRule mo func lin cnt vert st res).2, e.1.length ≤ 3 :=
+  TT.Lemmas.GramBin.binarizeRule_rank mo func lin cnt vert st res h
+
+theorem binarizeGrammar_rank (r : Reordering) (mo : Option MarkovOpts) (g : Grammar) :
+    ∀ e ∈ binarizeGrammar r mo g, e.1.length ≤ 3 := by
+  cases mo with
+  | some o =>
+    simp only [binarizeGrammar]
+    apply foldl_inv (fun acc : GenState × Grammar => ∀ e ∈ acc.2, e.1.length ≤ 3)
+    · rintro acc ⟨f, l, v, c⟩ _ h
+      exact TT.Lemmas.GramBin.binarizeRule_rank _ _ _ _ _ _ _ h
+    · simp
+  | none =>
+    simp only [binarizeGrammar]
+    apply foldl_inv (fun acc : GenState × Grammar => ∀ e ∈ acc.2, e.1.length ≤ 3)
+    · rintro acc ⟨f, l, c⟩ _ h
+      exact TT.Lemmas.GramBin.binarizeRule_rank _ _ _ _ _ _ _ h
+    · simp
+
+/-- T5: rules with at most two RHS elements are kept as they are (their count is added) -/
+theorem small_rule_kept (mo : Option MarkovOpts) (func : Func) (lin : Lin) (cnt : Nat) (vert : List Str)
+    (st : GenState) (res : Grammar) (h : func.length ≤ 3) :
+    (binarizeRule mo func lin cnt vert st res) = (st, res.add func lin .default cnt) :=
+  binarizeRule_small mo func lin cnt vert st res h
+
+/-- T4: deterministic labels are fresh: each call hands out a new number -/
+theorem unique_labels_fresh (st : GenState) (func : Func) (pos : Nat) (vert : List Str) (fo : List Nat) :
+    (nextLabel none st func pos vert fo).1 = uniqueLabel (st.numb + 1) ∧ (nextLabel none st func pos vert fo).2.numb = st.numb + 1 :=
+  ⟨rfl, rfl⟩
+
+theorem uniqueLabel_injective (a b : Nat) (h : uniqueLabel a = uniqueLabel b) : a = b := by
+  unfold uniqueLabel at h
+  exact natToStr_injective (List.append_cancel_left (List.append_cancel_right h))
+
+/-- T3: the optimal reordering returns a permutation of the RHS with the same LHS -/
+theorem pickOrder_perm (lin : Lin) (pos : List Nat) (hn : pos.Nodup) : (pickOrder lin pos pos.length).Perm pos :=
+  pickOrder_perm_aux lin pos.length pos hn rfl
+
+theorem reorder_perm (func : Func) (lin : Lin) (h : func ≠ []) :
+    (reorderingOptimal func lin).1.head? = func.head? ∧ ((reorderingOptimal func lin).1.drop 1).Perm (func.drop 1) := by
+  rw [reorderingOptimal_fst]
+  refine ⟨?_, ?_⟩
+  · cases func with
+    | nil => exact absurd rfl h
+    | cons a r => simp
+  · simp only [List.drop_succ_cons, List.drop_zero]
+    rw [drop_one_eq_map func]
+    apply List.Perm.map
+    have := pickOrder_perm lin ((List.range (func.length - 1)).map (· + 1)) (nodup_range_succ _)
+    simpa using this
 
 end TT.Props.C07
